@@ -32,10 +32,11 @@ ASSUMPTIONS = ["'subscribed at that time' = at the instant the round was request
 FLOORS = {"quick": {"scripts": 5000, "notifications_checked": 150000, "initial_notifications": 15000, "explicit_round_notifications": 20000,
                     "cyclic_rounds": 10000, "session_ids_checked": 150000, "refusals_checked": 2000, "latency_scripts": 1500,
                     "rounds_with_no_subscriber": 1500, "unsubscribe_between_request_and_send": 30, "unsubscribe_of_unsubscribed_endpoint": 800,
-                    "wrap_notifications_checked": 130000, "wrap_session_id_wraps": 2, "crowd_endpoints_checked": 5000}}
+                    "wrap_notifications_checked": 130000, "wrap_session_id_wraps": 2, "crowd_endpoints_checked": 5000, "companion_service_notifications_checked": 100000}}
 
 FOREVER = 0xFFFFFF
 SID, MAJ = 0xA001, 4
+SID2 = 0xA002
 ENDPOINTS = [("v4", "10.0.17.11", 6001), ("v4", "10.0.17.11", 6002), ("v6", "2001:db8::17:1", 6003), ("v6", "2001:db8::17:1", 6004)]  # same hosts, other ports
 SUBSCRIBERS = [("10.0.17.11", 30490), ("10.0.17.12", 30490)]
 GROUPS = {1: (0x11, 0x12, 0x13), 2: (0x21, 0x22)}
@@ -176,9 +177,24 @@ class Run:
         self.prot.announcer.start()
         svc.start_announce(self.prot.announcer)
 
-    def subscribe_datagram(self, g, eps, ttl, via, counter=0, egid=None):
+        # a second service of the same application, announced on the same discovery stack through the same helper, with the same
+        # subscribers: each service endpoint counts its notifications per destination on its own
+        class Svc2(SV.SimpleService):
+            service_id = SID2
+            version_major = MAJ
+            version_minor = 1
+
+        svc2 = Svc2(instance_id=1)
+        svc2.transport = net.RecTransport(self.h.loop, ("10.0.17.1", 30510))
+        eg9 = SV.SimpleEventgroup(svc2, id=9)
+        eg9.values[0x51] = b"companion"
+        svc2.register_eventgroup(eg9)
+        svc2.start_announce(self.prot.announcer)
+        self.svc2, self.eg9 = svc2, eg9
+
+    def subscribe_datagram(self, g, eps, ttl, via, counter=0, egid=None, service=None):
         fl, sid = self.sess[via].next()
-        ent = net.subscribe(SID, 1, MAJ, egid if egid is not None else g, ttl, counter=counter, o1=[ep_ref(i) for i in eps])
+        ent = net.subscribe(service or SID, 1, MAJ, egid if egid is not None else g, ttl, counter=counter, o1=[ep_ref(i) for i in eps])
         self.prot.datagram_received(net.sd_bytes([ent], sid, reboot=fl), via, False)
 
     def do(self, a):
@@ -237,9 +253,16 @@ class Run:
             if a["kind"] == "sub":
                 self._via[(a["g"], a["ep"])] = a["via"]
         self.h.at(0.0, self.setup)
+        for i in range(len(ENDPOINTS)):
+            self.h.at(0.0625 + i * 2.0 ** -8, self.subscribe_datagram, 9, [i], FOREVER, SUBSCRIBERS[0], 0, 9, SID2)
+        t = 0.3
+        while t < self.sc["horizon"] - 0.5:
+            self.h.at(t, lambda: self.eg9.notify_once([0x51]))
+            t += 0.375 + 2.0 ** -9
         for t, rank, a in self.sc["script"]:
             self.h.at(t, self.do, a, rank=rank)
         self.h.run(self.sc["horizon"])
+        self.sent2 = list(self.svc2.transport.sent) if getattr(self, "svc2", None) else []
         problems = self.h.problems(allowed_logged=("ParseError", "IncompleteReadError", "NakSubscription", "AssertionError"))
         sent = list(self.svc.transport.sent) if self.svc else []
         self.h.close()
@@ -270,6 +293,16 @@ def judge(ctx, sc, seed, replay):
         bad("scripted-call-raises", action=a, exc=e)
     for p in problems:
         bad("unexpected-exception-during-run", problem=p)
+    # the companion service: per destination its ids count 1, 2, 3, ... whatever the service under test sends in between
+    per2 = collections.defaultdict(list)
+    for t2, _it, data, dst in getattr(run, "sent2", []):
+        msgs2, broken2 = refwire.split_datagram(data)
+        per2[dst].extend(m2["sess"] for m2 in msgs2)
+    for dst, ids2 in per2.items():
+        ctx.count("companion_service_notifications_checked", len(ids2))
+        if ids2 != list(range(1, len(ids2) + 1)):
+            bad("notification-session-id-not-counting-per-destination", dst=dst, service="companion (second service on the same stack)",
+                got=ids2[:12])
     for t, how, outcome in run.refusals:
         ctx.count("refusals_checked")
         if outcome != "refused":
